@@ -242,7 +242,16 @@ func (e *Env) termV3Temporal(k *scoreKit) bool {
 		{"invalid object", []*ir.Term{ir.NotCond(valid)}, fl(0)},
 		{"valid", []*ir.Term{valid}, k.rnd("roundUp", prod)},
 	}
-	_, ok := k.compareScore("score-term", T.Method("Score"), ref)
+	// the same equation with the base score written out (a Temporal.Score that calls an unexported helper holding
+	// the base arithmetic instead of the exported Base.Score, whose validity test it has already made): every
+	// branch of the base equation, seen from the temporal object, times the temporal weights
+	baseRef, _ := v3BaseRef(k, T)
+	expanded := []refLeaf{{"invalid object", []*ir.Term{ir.NotCond(valid)}, fl(0)}}
+	for _, b := range baseRef[1:] {
+		gs := append([]*ir.Term{valid}, b.guards...)
+		expanded = append(expanded, refLeaf{"valid, base: " + b.name, gs, k.rnd("roundUp", ir.Mul(ir.Mul(ir.Mul(b.ret, k.w(T, "E")), k.w(T, "RL")), k.w(T, "RC")))})
+	}
+	_, ok := k.compareScoreAny("score-term", T.Method("Score"), ref, expanded)
 	return ok
 }
 
